@@ -177,6 +177,7 @@ def case_replay(case, mode):
         "mode": mode,
         "picks": picks,
         "located": case.get("located", True),
+        "fault_base": case.get("fault_base", False),
         "source": S.render(case["spec"]),
         "events": sched.excerpt(case, 80),
     }
@@ -230,6 +231,16 @@ def pick_op(rng, spec, ids, selections):
     return op
 
 
+PROFILE_SWITCHES = [0]
+
+
+def _flag_spelling(rng, b):
+    """is_sequential in a configuration: a bool, or (as configuration files written by other tools have it) 1 / 0."""
+    if rng.random() < 0.25:
+        return 1 if b else 0
+    return b
+
+
 def reconfigure(rng, sp, d, ids, mc_max, keep_mc=0.4):
     """Re-configure a built DAG (max_concurrency by config or attribute assignment; PARTIAL per-node configs that name only
     priority or only is_sequential). Returns the spec the monitors must use afterwards."""
@@ -262,7 +273,9 @@ def reconfigure(rng, sp, d, ids, mc_max, keep_mc=0.4):
             if fs.get("tag") == t:
                 fs.update(c)
                 by_tag.add(fn)
-        nodes_conf[t] = c
+        nodes_conf[t] = dict(c)
+        if "is_sequential" in c:
+            nodes_conf[t]["is_sequential"] = _flag_spelling(rng, c["is_sequential"])
     for i, nd in enumerate(sp["nodes"]):
         if uses[nd["fn"]] != 1 or rng.random() > 0.4 or nd["fn"] in by_tag or ids[i] in all_tags:
             continue
@@ -273,6 +286,7 @@ def reconfigure(rng, sp, d, ids, mc_max, keep_mc=0.4):
         if rng.random() < 0.25:
             c["is_sequential"] = rng.random() < 0.5
             sp["fns"][nd["fn"]]["is_sequential"] = c["is_sequential"]
+            c["is_sequential"] = _flag_spelling(rng, c["is_sequential"])
         if c:
             nodes_conf[ids[i]] = c
     if nodes_conf:
@@ -281,7 +295,22 @@ def reconfigure(rng, sp, d, ids, mc_max, keep_mc=0.4):
         via = rng.choice(["dict", "dict", "yaml", "json"])
         sp.setdefault("history", []).append(["config_from_" + via, conf, "attribute max_concurrency=%s" % sp["mc"] if "max_concurrency" not in conf else None])
         if via == "dict":
+            other = copy.deepcopy(conf)
             d.config_from_dict(conf)
+            if rng.random() < 0.35:
+                # configuration PROFILES kept as dict objects by the caller: A, then B (same keys, other values), then the very
+                # object A again - the DAG is configured as A says
+                if "max_concurrency" in other:
+                    other["max_concurrency"] = other["max_concurrency"] % mc_max + 1
+                for c in other.get("nodes", {}).values():
+                    if "priority" in c:
+                        c["priority"] = c["priority"] + 5
+                    if "is_sequential" in c:
+                        c["is_sequential"] = not c["is_sequential"]
+                d.config_from_dict(other)
+                d.config_from_dict(conf)
+                sp["history"][-1].append("then a second profile with the same keys, then this dict object once more")
+                PROFILE_SWITCHES[0] += 1
         else:
             import json as _json
             import os
@@ -366,6 +395,8 @@ def job_sched(j):
             col.inconclusive.append("build failed for generated shape: %r" % (e,))
             continue
         ids = S.node_ids(sp)
+        if any(fs.get("alias_of") for fs in sp["fns"].values()):
+            col.counters["shapes_with_two_decorated_functions_of_one_qualified_name"] += 1
         if sp.get("nest"):
             col.counters["shapes_with_a_block_written_as_inner_dag"] += 1
             if located and rng.random() < 0.3:
@@ -446,6 +477,9 @@ def job_sched(j):
             if j.get("faults") and op.get("kind") != "setup" and not sset and rng.random() < j.get("fault_rate", 1.0):
                 k = 1 if rng.random() < 0.7 else 2
                 faults = rng.sample(ids, min(k, len(ids)))
+            fault_base = bool(faults) and rng.random() < 0.12
+            if fault_base:
+                col.counters["cases_whose_failing_nodes_raise_a_BaseException"] += 1
             args = [Sym("arg", rng.randrange(1 << 30))]
             # configuration axis: profiling of all nodes on/off (process-global tawazi.config.cfg)
             from tawazi.config import cfg as _cfg
@@ -455,7 +489,7 @@ def job_sched(j):
             _cfg.TAWAZI_PROFILE_ALL_NODES = prof
             try:
                 case = sched.run_case(sp, op=op, args=args, faults=faults, controlled=(mode == "ctl"), d=d, plain=plain,
-                                      pre_values=pre_values)
+                                      pre_values=pre_values, fault_base=fault_base)
             finally:
                 _cfg.TAWAZI_PROFILE_ALL_NODES = old_prof
             if sset and case["res"][0] == "ok":
@@ -547,7 +581,8 @@ def _replay_sched(j, rp):
     for attempt in range(j.get("attempts", 5)):
         ch = ScriptChooser(rp.get("picks", [])) if attempt == 0 and rp.get("mode") == "ctl" else None
         case = sched.run_case(sp, op=rp["op"], args=[Sym("arg", attempt)], faults=rp.get("faults", []),
-                              controlled=(rp.get("mode", "ctl") == "ctl"), chooser=ch, d=d, plain=plain)
+                              controlled=(rp.get("mode", "ctl") == "ctl"), chooser=ch, d=d, plain=plain,
+                              fault_base=rp.get("fault_base", False))
         case["located"] = located
         eval_case(col, case, rp.get("mode", "ctl"))
     return col.result()
